@@ -90,9 +90,17 @@ class Gen:
         else: new_blk('comb', [port])
       s['items'].append({'t': 'kid', 'slot': slot, 'spec': sub})
       for i in range(cout): avail.append([[slot], f'out{i}'])
-      if sub['mport'] and rng.random() < feat.get('mcall', 0.6):
-        b = new_blk('once', [], nreads=0)
-        b['mcalls'] = [[[slot], 'ping']]
+      if sub['mport']:
+        r = rng.random()
+        if r < feat.get('mcall', 0.45):
+          # the parent calls the child's method port directly
+          b = new_blk('once', [], nreads=0)
+          b['mcalls'] = [[[slot], 'ping']]
+        elif r < 0.85 and not s['caller']:
+          # ... or through an own CallerPort connected to it (a method net inside this component)
+          s['caller'] = [slot]
+          b = new_blk('once', [], nreads=0)
+          b['calls_cp'] = True
 
     i = 0
     while i < len(plan):
@@ -133,7 +141,7 @@ class Gen:
   def constraints(self, s, feat):
     rng = self.rng
     blks = [(i, it) for i, it in enumerate(s['items']) if it['t'] == 'blk']
-    sched = [(i, b) for i, b in blks if b['kind'] != 'ff' and not b.get('mcalls')]   # the calling block is ordered by M only
+    sched = [(i, b) for i, b in blks if b['kind'] != 'ff' and not b.get('mcalls') and not b.get('calls_cp')]   # the calling block is ordered by M only
     pcons = feat.get('cons', 0.5)
     # U(a) < U(b), forward in item order
     for (i, a), (j, b) in itertools.combinations(sched, 2):
